@@ -80,8 +80,8 @@ def build(u):
 
     def prep_strip(f):
         n = f.rewrite(r'\bprefix\.as_ref\(\)\.to_string\(\)', 'verif_as_ref_to_string(prefix)', expect=1)
-        n += f.rewrite(r"!prefix\.ends_with\('/'\)", "!verif_string_ends_with_char(&prefix, '/')", expect=1)
-        n += f.rewrite(r"\bprefix\.push\('/'\)", "verif_string_push(&mut prefix, '/')", expect=1)
+        n += f.rewrite(r"!prefix\.ends_with\(('(?:\\.[^']*|[^'\\])')\)", r"!verif_string_ends_with_char(&prefix, \1)", expect=1)
+        n += f.rewrite(r"\bprefix\.push\(('(?:\\.[^']*|[^'\\])')\)", r"verif_string_push(&mut prefix, \1)", expect=1)
         n += f.rewrite(r'\bsource\.starts_with\(&prefix\)', 'verif_arc_starts_with(&*source, &prefix)', expect=1)
         n += f.rewrite(r'\bsource\[prefix\.len\(\)\.\.\]\.into\(\)', 'verif_arc_after_prefix(&*source, &prefix)', expect=1)
         u.count('R-shim-call', n)
